@@ -1318,8 +1318,9 @@ PROPERTY = Property(
         "stream spdx-e2e: the composed model (Model/SpdxE2E.lean) receives the tree itself (bytes of every regular file) and computes walk, "
         "own source, REUSE.toml chain, extraction, attribution, file reports, LICENSES/ entries and their decoded texts, and the document; "
         "oracles there (parameters, answered by the real libraries): hashlib sha1 / md5, license-expression (parses?, keys, str, ==), "
-        "boolean.py (simplify), binaryornot, tomlkit, python-debian; outside the composed model: symlinks below LICENSES/, "
-        "multiprocessing, --output",
+        "boolean.py (simplify), binaryornot, tomlkit, python-debian; outside this stream: symlinks below LICENSES/ (the composed "
+        "model follows them — licWalkLink, linkedContentAt — and stream e2e-model of C01 generates them; the projects of this stream "
+        "hold none), multiprocessing, --output",
         "sha1 and md5 are parameters of the model (the checksum arrives as data, the SPDXID digest as a table computed with hashlib); "
         "uniqueness of SPDXIDs is proved assuming the digest is injective on the finite set {name ++ checksum} of the project",
         "boolean.py's simplify/render and license-expression's parser are not modelled: every LicenseConcluded the tool emits is "
